@@ -289,7 +289,7 @@ func runC38(t *testing.T, pl any) *simcore.Result {
 	if hp != nil {
 		panic(*hp)
 	}
-	if dead != "" && res.Violation == nil {
+	if dead != "" && res.Violation == nil && len(res.Known) == 0 {
 		simcore.Harnessf("bubble ended with %s", dead)
 	}
 	return res
@@ -367,6 +367,8 @@ var treeFindings = func() map[string]bool {
 		"reboot-failed:process-crash:non-prunable-table-nonzero-tail",
 		// C39
 		"reboot-canon-gap:reorg-deletes-old-index-before-moving-head",
+		"reboot-log-crit:pathdb-gap-between-state-and-state-history",
+		"reboot-canon-receipts-missing:unexecuted-sidechain-block-canonicalised",
 		"reboot-panic:reset-on-missing-head-block-dereferences-nil-current-block",
 		"reboot-open-failed:reorg-deleted-canonical-hash-1-before-moving-head",
 		"reboot-head-state-missing:sethead-to-genesis-interrupted-before-state-recovery",
